@@ -168,6 +168,64 @@ impl Send {
     //@spec             && final(self).prioritize.flow.a() + final(stream).send_flow.a() <= old(self).prioritize.flow.a() + old(stream).send_flow.a()
     //@spec             && final(stream).send_flow.a() >= 0 && final(self).prioritize.flow.a() >= 0),
     //@end
+
+    //@extract src/proto/streams/send.rs Send::schedule_implicit_reset
+    //@subst stream: &mut store::Ptr=>stream: &mut Stream
+    //@spec     requires
+    //@spec         stream_inv(*old(stream)) && wf_pool(old(self).prioritize),
+    //@spec         old(self).prioritize.flow.a() + old(stream).send_flow.a() <= 0x7fff_ffff,
+    //@spec         // NO_ERROR is only scheduled by a server that has completed its response (maybe_cancel)
+    //@spec         reason == Reason::NO_ERROR ==> old(stream).state.send_closed(),
+    //@spec     ensures
+    //@spec         // C17: a closed stream gets nothing; otherwise the reset is scheduled with exactly this code
+    //@spec         old(stream).state.closed() ==> *final(stream) == *old(stream) && final(self).prioritize == old(self).prioritize,
+    //@spec         !old(stream).state.closed() ==> final(stream).state.inner == Inner::Closed(Cause::ScheduledLibraryReset(reason)),
+    //@spec         // queued frames stay (they are sent or discarded by pop_frame, then the RST_STREAM follows)
+    //@spec         final(stream).pending_send == old(stream).pending_send && final(stream).buffered_send_data == old(stream).buffered_send_data,
+    //@spec         // C16: capacity reserved but not needed for buffered data returns to the pool; nothing is created
+    //@spec         final(stream).send_flow.w() == old(stream).send_flow.w() && final(self).prioritize.flow.w() == old(self).prioritize.flow.w(),
+    //@spec         final(self).prioritize.flow.a() + final(stream).send_flow.a() <= old(self).prioritize.flow.a() + old(stream).send_flow.a(),
+    //@spec         final(self).prioritize.flow.a() >= 0,
+    //@spec         // C06: the stream is scheduled (and the connection task woken) so that the RST_STREAM goes out
+    //@spec         !old(stream).state.closed() && !old(stream).is_pending_open && !old(stream).is_pending_push ==> final(stream).is_pending_send && *final(task) is None,
+    //@spec         stream_inv(*final(stream)),
+    //@end
+
+    //@extract src/proto/streams/send.rs Send::handle_error
+    //@subst handle_error<B>(=>handle_error(
+    //@subst buffer: &mut Buffer<Frame<B>>=>buffer: &mut Buffer
+    //@subst stream: &mut store::Ptr=>stream: &mut Stream
+    //@spec     requires
+    //@spec         0 <= old(stream).send_flow.a() && wf_pool(old(self).prioritize),
+    //@spec         old(self).prioritize.flow.a() + old(stream).send_flow.a() <= 0x7fff_ffff,
+    //@spec     ensures
+    //@spec         // C07/C17: everything unsent is discarded and ALL capacity is back in the pool (or passed on)
+    //@spec         final(stream).pending_send@.len() == 0 && final(stream).buffered_send_data == 0 && final(stream).requested_send_capacity == 0,
+    //@spec         final(stream).send_flow.a() == 0,
+    //@spec         final(self).prioritize.flow.a() <= old(self).prioritize.flow.a() + old(stream).send_flow.a() && final(self).prioritize.flow.a() >= 0,
+    //@spec         final(stream).send_flow.w() == old(stream).send_flow.w() && final(self).prioritize.flow.w() == old(self).prioritize.flow.w(),
+    //@spec         final(stream).state == old(stream).state,
+    //@end
+
+    //@extract src/proto/streams/send.rs Send::recv_stream_window_update
+    //@subst recv_stream_window_update<B>(=>recv_stream_window_update(
+    //@subst buffer: &mut Buffer<Frame<B>>=>buffer: &mut Buffer
+    //@subst stream: &mut store::Ptr=>stream: &mut Stream
+    //@ret r
+    //@spec     requires
+    //@spec         sz_ok(sz) && sz >= 1,
+    //@spec         stream_inv(*old(stream)) && wf_pool(old(self).prioritize),
+    //@spec         old(self).prioritize.flow.a() + old(stream).send_flow.a() <= 0x7fff_ffff,
+    //@spec     ensures
+    //@spec         final(self).prioritize.flow.w() == old(self).prioritize.flow.w(),
+    //@spec         // C09: a WINDOW_UPDATE that overflows the stream window resets THAT stream with FLOW_CONTROL_ERROR
+    //@spec         (!(old(stream).state.send_closed() && old(stream).buffered_send_data == 0) && old(stream).send_flow.w() + sz > 0x7fff_ffff) ==> (
+    //@spec             r == Err::<(), Reason>(Reason::FLOW_CONTROL_ERROR)
+    //@spec             && (!old(stream).state.is_reset_spec() ==> final(stream).state.inner == Inner::Closed(Cause::Error(Error::Reset(old(stream).id, Reason::FLOW_CONTROL_ERROR, Initiator::Library))))),
+    //@spec         // otherwise the window grows by exactly sz (or the update is ignored by a stream that can never send again)
+    //@spec         !(!(old(stream).state.send_closed() && old(stream).buffered_send_data == 0) && old(stream).send_flow.w() + sz > 0x7fff_ffff) ==> r.is_ok(),
+    //@spec         r.is_ok() && !(old(stream).state.send_closed() && old(stream).buffered_send_data == 0) ==> final(stream).send_flow.w() == old(stream).send_flow.w() + sz,
+    //@end
 }
 
 proof fn vacuity_probe_send()
